@@ -1,3 +1,5 @@
+#[cfg(feature = "iggy_verif")]
+use iggy::verif::tokio;
 use crate::streaming::utils::file;
 use crate::{
     server_error::CompatError, streaming::batching::message_batch::RETAINED_BATCH_HEADER_LEN,
